@@ -91,6 +91,8 @@ func evalPred(p string, subst map[string]string) (bool, bool) {
 
 func c18(r *Run) {
 	w := r.W
+	// the index moves its last-accepted pointer, stores the block and prunes in one atomic write
+	defer r.importRules(c19, "C19.R2")
 	r.rule("C18.R1", "K1", "Accept: index update succeeds before queueing, unpinning and last-accepted update", 3)
 	r.rule("C18.R2", "K1", "execution results written before the chain accepts; state commit is the accepter's last effect", 2)
 	r.rule("C18.R3", "interval", "restart tolerates every index/state gap a crash can leave", 1)
